@@ -604,6 +604,9 @@ def vec_segments(body, local):
             segs.append(("call", ("call", c, c.arg_exprs()), c))
         else:
             raise FactError("byte-vector local _%d initialised by unrecognised call %s" % (local, c.fn))
+    elif d[0] == "assign" and "repeat" in d[3]:
+        # a fixed-size stack buffer `let mut key = [0u8; N]` filled by `key[a..b].copy_from_slice(src)`: segments by offset
+        return array_segments(body, local)
     else:
         raise FactError("byte-vector local _%d not initialised by a call" % local)
     muts = []
@@ -621,6 +624,47 @@ def vec_segments(body, local):
         c = by_bb[bb]
         segs.append(("bytes" if VEC_APPEND[c.fn] == "extend" else "push", c.arg(1), c))
     return segs
+
+
+def array_segments(body, local):
+    """Content of a `[u8; N]` buffer written by `buf[range].copy_from_slice(src)` calls, as byte segments ordered by offset.
+    Every write must be unconditional with respect to the others (a chain by dominance) and the ranges must tile the prefix
+    they cover without overlap; the tail never written stays zero and is reported as a ('zero', n) segment by the caller's slice."""
+    writes = []
+    for c in body.calls():
+        if c.bb not in body.live_blocks() or c.fn != "core::slice::<impl [T]>::copy_from_slice":
+            continue
+        dst = strip(c.arg(0), ())
+        n = 0
+        while dst[0] in ("ref", "deref") and n < 6:
+            dst = dst[1]
+            n += 1
+        if dst[0] != "call" or not dst[1].fn.endswith("::index_mut") or root_local(body, dst[1].args[0]) != local:
+            continue
+        rng = strip(dst[2][1])
+        if rng[0] != "agg":
+            raise FactError("stack buffer _%d is written through a non-constant range" % local)
+        adt = rng[1].get("adt", "")
+        nums = [const_int(x) for x in rng[2]]
+        if any(v is None for v in nums):
+            raise FactError("stack buffer _%d is written through a non-constant range" % local)
+        if adt.endswith("RangeTo"):
+            lo, hi = 0, nums[0]
+        elif adt.endswith("RangeFrom"):
+            lo, hi = nums[0], None
+        elif adt.endswith("RangeFull"):
+            lo, hi = 0, None
+        elif adt.endswith("::Range"):
+            lo, hi = nums[0], nums[1]
+        else:
+            raise FactError("stack buffer _%d: unrecognised range %s" % (local, adt))
+        writes.append((lo, hi, c))
+    writes.sort(key=lambda w: w[0])
+    for (a, b_) in zip(writes, writes[1:]):
+        if a[1] is None or a[1] != b_[0]:
+            raise FactError("stack buffer _%d: the written ranges do not tile (%s, %s)" % (local, a[:2], b_[:2]))
+    dominance_sorted(body, [w[2].bb for w in writes])     # raises when a write is conditional with respect to another
+    return [("bytes", w[2].arg(1), w[2]) for w in writes]
 
 
 def subst_args(e, arg_exprs):
